@@ -97,34 +97,40 @@ class TSBurstDetector(Elaboratable):
         ctrl  = self.sink.ctrl
 
 
-        def advance_on_match(count, target_ctrl=0b0000, fail_state="NONE_DETECTED"):
+        def restart_on_mismatch():
+            """ Handles a valid word that doesn't continue the current set. """
+
+            # Any other word ends our run of consecutive sets...
+            m.d.ss += consecutive_set_count.eq(0)
+
+            # ... but it may itself be the first word of a new set.
+            with m.If((data == self._set_data[0]) & (ctrl == self._first_word_ctrl)):
+                m.next = "1_DETECTED"
+            with m.Else():
+                m.next = "WAIT_FOR_FIRST"
+
+
+        def advance_on_match(count, target_ctrl=0b0000):
             data_matches = (data == self._set_data[count])
             ctrl_matches = (ctrl == target_ctrl)
 
             # Once we have a valid word in our stream...
             with m.If(self.sink.valid):
 
-                # ... advance if that word matches; or move to our "fail state" otherwise.
+                # ... advance if that word matches; or start over otherwise.
                 with m.If(data_matches & ctrl_matches):
                     m.next = f"{count + 1}_DETECTED"
                 with m.Else():
-                    # Any other word ends our run of consecutive sets.
-                    m.d.ss += consecutive_set_count.eq(0)
-                    m.next = fail_state
+                    restart_on_mismatch()
 
 
         last_state_number = len(self._set_data)
         with m.FSM(domain="ss"):
 
-            # NONE_DETECTED -- we haven't seen any parts of our ordered set;
-            # we're waiting for the first one.
-            with m.State("NONE_DETECTED"):
-                m.d.ss += consecutive_set_count.eq(0)
-                m.next = "WAIT_FOR_FIRST"
-
-            # WAIT_FOR_FIRST -- we're waiting to see the first word of our sequence
+            # WAIT_FOR_FIRST -- we haven't seen any parts of our ordered set;
+            # we're waiting to see the first word of our sequence
             with m.State("WAIT_FOR_FIRST"):
-                advance_on_match(0, target_ctrl=self._first_word_ctrl, fail_state="WAIT_FOR_FIRST")
+                advance_on_match(0, target_ctrl=self._first_word_ctrl)
 
             # 1_DETECTED -- we're parsing the first data word; which we'll do slightly differently,
             # as it can contain a variable configuration field.
@@ -138,7 +144,7 @@ class TSBurstDetector(Elaboratable):
                 # Once we have a valid word in our stream...
                 with m.If(self.sink.valid):
 
-                    # ... advance if that word matches; or move to our "fail state" otherwise.
+                    # ... advance if that word matches; or start over otherwise.
                     with m.If(data_matches & ctrl_matches):
                         m.next = f"2_DETECTED"
 
@@ -156,7 +162,7 @@ class TSBurstDetector(Elaboratable):
                             ]
 
                     with m.Else():
-                        m.next = "NONE_DETECTED"
+                        restart_on_mismatch()
 
 
             for i in range(2, last_state_number):
